@@ -33,10 +33,17 @@ structure Inv (s : State K V P) : Prop where
 theorem inv_init : Inv (init : State K V P) := by
   constructor <;> simp [init, ContextVars.init, stackValue, WFStack]
 
-/-- in a state satisfying the invariant `finally: context.reset(token)` succeeds -/
-theorem exitOne_cons (s : State K V P) (c : Nat) (f : Frame K V) (rest : List (Frame K V))
+/-- tie G: however a block is left – normally, by an `Exception`, by a `BaseException` that is not an
+`Exception` (KeyboardInterrupt, SystemExit, GeneratorExit, asyncio.CancelledError) –
+`context.reset(token)` runs.  (Fails to build when `contextualize` restores on fewer paths.) -/
+theorem resets_always : ∀ kind : ExitKind, kind ∈ Gen.resetOn := by
+  intro kind; cases kind <;> decide
+
+/-- in a state satisfying the invariant `context.reset(token)` runs and succeeds, whatever the way
+the block is left -/
+theorem exitOne_cons (s : State K V P) (c : Nat) (kind : ExitKind) (f : Frame K V) (rest : List (Frame K V))
     (hI : Inv s) (h : s.stacks c = f :: rest) :
-    exitOne s c = { s with
+    exitOne s c kind = { s with
       cv := { s.cv with vals := fun c' => if c' = c then f.tok.old else s.cv.vals c',
                         used := f.tok.id :: s.cv.used },
       stacks := fun c' => if c' = c then rest else s.stacks c' } := by
@@ -45,13 +52,13 @@ theorem exitOne_cons (s : State K V P) (c : Nat) (f : Frame K V) (rest : List (F
   have ho := hI.owner c f hm
   unfold exitOne
   rw [h]
-  simp [ContextVars.reset, hu, ho]
+  simp [ContextVars.reset, hu, ho, resets_always kind]
 
-theorem inv_exitOne (s : State K V P) (c : Nat) (hI : Inv s) : Inv (exitOne s c) := by
+theorem inv_exitOne (s : State K V P) (c : Nat) (kind : ExitKind) (hI : Inv s) : Inv (exitOne s c kind) := by
   cases h : s.stacks c with
   | nil => unfold exitOne; rw [h]; exact hI
   | cons f rest =>
-    rw [exitOne_cons s c f rest hI h]
+    rw [exitOne_cons s c kind f rest hI h]
     have hm : f ∈ s.stacks c := by rw [h]; exact List.mem_cons_self
     have sub : ∀ c' f', f' ∈ (if c' = c then rest else s.stacks c') → f' ∈ s.stacks c' := by
       intro c' f' hf
@@ -96,10 +103,11 @@ theorem inv_exitOne (s : State K V P) (c : Nat) (hI : Inv s) : Inv (exitOne s c)
       · subst hc; simp; exact hw.2
       · simp [hc]; exact hI.wf c'
 
-theorem inv_exitN (s : State K V P) (c n : Nat) (hI : Inv s) : Inv (exitN s c n) := by
+theorem inv_exitN (s : State K V P) (c : Nat) (kind : ExitKind) (n : Nat) (hI : Inv s) :
+    Inv (exitN s c kind n) := by
   induction n generalizing s with
   | zero => exact hI
-  | succ n ih => exact ih _ (inv_exitOne s c hI)
+  | succ n ih => exact ih _ (inv_exitOne s c kind hI)
 
 theorem inv_enter (s : State K V P) (c : Nat) (kw : Assoc K V) (papply : P → Assoc K V → Assoc K V)
     (hI : Inv s) : Inv (step papply s c (.enter kw)) := by
@@ -189,8 +197,8 @@ theorem inv_step (papply : P → Assoc K V → Assoc K V) (s : State K V P) (c :
   cases op with
   | enter kw => exact inv_enter s c kw papply hI
   | spawn copy => exact inv_spawn s c copy papply hI
-  | exit => exact inv_exitOne s c hI
-  | raise k => exact inv_exitN s c k hI
+  | exit => exact inv_exitOne s c .normal hI
+  | raise k kind => exact inv_exitN s c kind k hI
   | configure e p =>
     simp only [step]
     cases e <;> cases p <;> exact ⟨hI.owner, hI.fresh, hI.unused, hI.usedLt, hI.pw, hI.cross, hI.value, hI.wf⟩
